@@ -355,7 +355,13 @@ def run(rng, tier, deep):
             if rng.random() < 0.3:
                 flux = rng.uniform(0, 1, (raw["domain"]["ny"], raw["domain"]["nx"]))
             cache_obj = None
-            line, impl, wired, _ = model_and_impl(raw, nstep, tw_i, mi, flux, cache_obj)
+            try:
+                line, impl, wired, _ = model_and_impl(raw, nstep, tw_i, mi, flux, cache_obj)
+            except Exception as e:  # noqa: BLE001
+                # the recorded run itself failed on the implementation's behaviour (an exception out of run_bldfm_single or out of the
+                # bookkeeping around it): a disagreement on THIS configuration; the oracle below still runs on it
+                st["disagreements"].append(dict(what="single: the recorded run raised %s: %s" % (type(e).__name__, str(e)[:160]), op=repr(raw)[:600]))
+                continue
             lines.append(line)
             impls.append(impl)
             wires.append(wired)
